@@ -431,6 +431,10 @@ func (vc *VC) loopNames(fr *Frame, li *loopInfo, phiVals map[*ssa.Phi]*Val) map[
 			if n == "rangeindex" {
 				n = "#i"
 			}
+			if n == "rangeint.iter" {
+				// `for range n`: the number of completed iterations
+				n = "#n"
+			}
 			names[n] = v
 		}
 	}
